@@ -112,6 +112,8 @@ def main(argv=None):
                 # trivially verified functions do not show up in the breakdown; accept when overall ok
                 if not res["ok"]:
                     undecided.append("verus unit %s: function %s missing from results" % (uname, must))
+        if res.get("canary_rejected") is False:
+            undecided.append("verus unit %s: canary lemma was not rejected" % uname)
         P.setdefault("_verus", {})[uname] = res
 
     # ---------------- lane K / Kb ----------------
